@@ -531,7 +531,9 @@ def op_inv_dup_inherited(draw: Draw, spec: Spec) -> Result:
                 cands.append((d, spec.cp(a)))
     if not cands:
         return None
-    d, a = pick(draw, cands)
+    # classes and constrained primitives with equal weight where the spec offers both
+    groups = [g for g in ([c for c in cands if isinstance(c[0], mmgen.Cls)], [c for c in cands if isinstance(c[0], mmgen.CP)]) if g]
+    d, a = pick(draw, pick(draw, groups))
     src = pick(draw, a.invs)
     d.invs.insert(draw(st.integers(0, len(d.invs))), mmgen.Inv(src.body, src.desc, dict(src.tags)))
     kind = "class" if isinstance(d, mmgen.Cls) else "constrained-primitive"
